@@ -1001,6 +1001,7 @@ func runArchiveReplay(args []string) int {
 						runStatsIndexDamage(x, &c)
 					case "scan":
 						runScanCase(x, &c)
+						runWriteCase(x, &c)
 					case "trunc":
 						runTruncCase(x, &c)
 					}
